@@ -581,6 +581,7 @@ def _run(ctx, root, slot):
         absorb(new_rows)
         rows.extend(new_rows)
     ctx.count('seeds_fixed_sweep', len(SWEEP_SEEDS) + 1)
+    ctx.count('loads_in_rotating_extra_process', sum(1 for r in rows if r['seed'] == extra_seed))
     ctx.count('seeds_searched', len(planned_total))
     ctx.count('child_processes', len(set(r['file'] for r in rows)))
     ctx.count('probe_vs_child_order_mismatches', mismatches)
